@@ -111,8 +111,8 @@ ArgKinds == Kinds \cup {"try_zero_verbose"}
 
 \* --- "deco": the calls on decorated functions (both functions accept them; the twins differ in what they return)
 DecoSigs  == {MemoSig} \cup (IF Wide THEN {S(2, 2, FALSE, TRUE)} ELSE {})
+\* f(1): the twins answer differently, one key for every memo; f('bad_bare'): f fails without a message
 DecoCalls == {Key(<<VInt(1)>>, <<>>), Key(<<VStr("bad_bare")>>, <<>>)}
-             \cup (IF Wide THEN {Key(<<>>, <<<<"a", VInt(1)>>>>), Key(<<VInt(1), VInt(2)>>, <<>>)} ELSE {})
 DecoKinds == Range(ExcKindSeq)
 
 \* ------------------------------------------------------------------ the machines
@@ -299,7 +299,8 @@ ExcLaws == ExcState => \A cc \in ExcCallsOf[base] : ValidFor(base, Newest, cc) =
               /\ IsInterrupt(f) => r = f
 \* (d) the statement's equation for every binding the caller got from getcallargs and did not edit:
 \* call_with_callargs(obj, getcallargs(obj, *a, **k)) == obj( *a, **k ) wherever the right-hand side is pinned
-ReplayIsTheCall == mode = "args" => \A cc \in ArgCallsOf[base], o \in 0..1 :
+\* (a fact about base function and wrapper, not about the state: examined once per session, on its first states)
+ReplayIsTheCall == (mode = "args" /\ Len(store) <= 1 /\ out[1] \in {"idle", "gca"}) => \A cc \in ArgCallsOf[base], o \in 0..1 :
                       LET want == LawOutcome(base, ChainOf(o), cc)  got == ReplayLaw(base, ChainOf(o), Bind(base, cc)) IN
                       want = Unspecified \/ got = Unspecified \/ got = want
 ArgBindings == mode = "args" => BindingsAreBindings
